@@ -485,6 +485,20 @@ def run(ctx):
                     k += 1
         if k:
             writers[b.short] = k
+    # a merged element that has its own (restricted) file set is now also in the new file: the insert reaches the FIELD (through a write guard),
+    # not a clone of it - otherwise its new-file-only children are attributed to a file their parent is not in
+    C.rule('C10-MUST-mergeown', 'merge_sub_elements inserts the new file into the merged element\'s own ElementRaw.file_membership (an insert whose receiver is the field reached through a write guard, not a copy)')
+    ms = P.get('AutosarModel::merge_sub_elements')
+    okm = []
+    for x in [ms] + list(P.closures_of(ms)):
+        for pos, t in x.iter_calls():
+            if call_matches(t, r'HashSet::<[^>]*>::(insert|extend)$|Extend<[^>]*>>?::extend$') and t['args']:
+                n_, c_, f_ = deep_sources(x, t['args'][0], depth=20)
+                if 'ElementRaw.file_membership' in f_ and any(c.endswith('RwLock::<R, T>::write') or c.endswith('DerefMut>::deref_mut') for c in c_) and not any(c.endswith('Clone>::clone') or c.endswith('::clone_from') for c in c_):
+                    okm.append(x.where(pos))
+    C.check(bool(okm), 'C10-MUST-mergeown', 'merge_sub_elements|own-file-set-gets-the-new-file',
+            'merge_sub_elements no longer inserts the new file into the merged element\'s own file set (only into a copy, or not at all): an element restricted to some files that a later file also contributes to keeps its old set, and its new children are attributed to a file that does not contain their parent',
+            '%s:%d' % (ms.file, ms.line), sample={'fn': 'AutosarModel::merge_sub_elements', 'inserts_into_the_field': okm})
     C.extra['file_membership_writers'] = writers
     C.ok('C10-WHO-membership', 'enumerated', '%d writer functions, %d sites' % (len(writers), sum(writers.values())))
     C.floor('C10-WHO-membership.sites', sum(writers.values()), 10)
